@@ -375,11 +375,14 @@ def _compile(ctx, model):
     listed_first = excl_listed = excl_ctx = lam = src_ok = True
     for args in evals:
         text = args[0]
-        if not (text[0] == "strformat" and text[1].replace(" ", "") ==
-                "lambda{}:{}" and len(text[2]) == 2):
+        from ..rules import text_parts
+        tp = text_parts(text)
+        if tp is None or len(tp) != 4 or tp[0][0] != "const" or \
+                tp[2][0] != "const" or tp[0][1].strip() != "lambda" or \
+                tp[2][1].strip() != ":":
             lam = False
             continue
-        params, body = text[2]
+        params, body = tp[1], tp[3]
         # parameters: ",".join(str(v) for v in ALL)
         allv = None
         if params[0] == "strjoin" and params[1].strip() == "," and params[2] and \
@@ -402,7 +405,9 @@ def _compile(ctx, model):
             if not contains(rest, lambda t: t[0] == "binop" and t[1] == "Sub"
                             and t[3][0] == "seq" and t[3][2][0] == "call"
                             and t[3][2][1].endswith("var")
-                            and t[3][3][0] == "keys"):
+                            and (t[3][3][0] == "keys" or contains(
+                                t[3][3], lambda u: u[0] == "call" and
+                                "context" in str(u[1])))):
                 excl_ctx = False
         if not (body[0] == "call" and len(body) >= 5 and body[4] == (
                 "call", "CompileMapper", (), ()) and body[2] == (
